@@ -20,11 +20,12 @@ var udpWaits = []time.Duration{2 * time.Second, 4 * time.Second, 8 * time.Second
 var shortWaits = []time.Duration{1 * time.Second, 2 * time.Second}
 
 type udpClient struct {
-	conn   *net.UDPConn
-	local  *net.UDPAddr
-	server *net.UDPAddr
-	buf    []byte
-	resent int64
+	conn    *net.UDPConn
+	local   *net.UDPAddr
+	server  *net.UDPAddr
+	buf     []byte
+	resent  int64
+	lateDup int64 // retried exchanges for which both replies eventually arrived
 }
 
 func dialUDP(server *net.UDPAddr) (*udpClient, error) {
@@ -62,7 +63,15 @@ func (c *udpClient) exchange(wire []byte, waits []time.Duration) ([]byte, error)
 				return nil, fmt.Errorf("udp read: %w", err)
 			}
 			if n >= 2 && binary.BigEndian.Uint16(c.buf) == id {
-				return append([]byte(nil), c.buf[:n]...), nil
+				out := append([]byte(nil), c.buf[:n]...)
+				if attempt > 0 {
+					// diagnostic only: does the reply to the earlier datagram show up too?
+					c.conn.SetReadDeadline(time.Now().Add(300 * time.Millisecond))
+					if m, err := c.conn.Read(c.buf); err == nil && m >= 2 && binary.BigEndian.Uint16(c.buf) == id {
+						c.lateDup++
+					}
+				}
+				return out, nil
 			}
 		}
 	}
